@@ -12,7 +12,11 @@ import Marwood.Vm.Machine
 
 The verifier assigns to every instruction offset an *abstract stack*: the cells the current frame
 has pushed above its header (`sp - (bp + 4)` of them; above the entry `sp` for entry code), each
-either `any` or statically known to hold `ArgumentCount(n)`. One forward pass (`infer`) computes
+statically known to hold a **value** (`val`: a pointer or an address-free cell — what PUSHACC pushes, and
+PUSHIMM of a constant), statically known to hold `ArgumentCount(n)` (`argc n`), or untyped (`any`: what
+PUSH pushes — `compile.rs` never emits PUSH — and PUSHIMM of a cell that is not a value). CONS pops two
+typed cells, CALL / TCALL need `argc n` on top of `n` typed cells: the cells the machine consumes *as
+values* are values, never frame-header cells (`EnvironmentPointer`, `InstructionPointer`). One forward pass (`infer`) computes
 the assignment; an independent local check (`checkAt`, one instruction at a time, against the
 assignment) validates it. Only the local check is used by the soundness proof
 (`Lemmas/StackWFStep.lean`): `infer` is an untrusted oracle.
@@ -22,8 +26,23 @@ namespace Marwood.Vm.Verify
 /-- abstract stack cell -/
 inductive ACell
   | any
+  | val
   | argc (n : Nat)
 deriving DecidableEq, Repr, Inhabited
+
+/-- typed: the cell is known to hold a value (`ArgumentCount(n)` is address-free, hence a value too) -/
+def ACell.isV : ACell → Bool
+  | .any => false
+  | _ => true
+
+/-- a first-class value as the machine holds it in `acc`, in a global slot or in a temporary: a pointer,
+    or a cell that mentions no heap address. The frame-header cells `EnvironmentPointer` and
+    `InstructionPointer` are not, nor are the inline `Pair` / `Closure` / `LexicalEnvPtr` payloads that only
+    ever live *inside* heap cells. (`Lemmas.Sim.plainGlob`, restated over the machine's cells alone because
+    the driver links this file; `Lemmas/StackWF.lean` proves the two equal.) -/
+def isVal : VCell → Bool
+  | .pair _ _ | .closure _ _ | .lexEnvPtr _ _ | .envPtr _ | .instrPtr _ _ => false
+  | _ => true
 
 /-- abstract state at an instruction offset. Lists are top-first.
     * `pre`: the instruction is `VARARG`/`ENTER` of a procedure prologue; the frame header is being
@@ -47,15 +66,15 @@ def stateAt (tm : TypeMap) (o : Nat) : Option AState :=
 
 def cellTy : VCell → ACell
   | .argc n => .argc n
-  | _ => .any
+  | v => if isVal v then .val else .any
 
 /-- the static stack `x` is acceptable where the assignment says `s`: equal, or — at a CALL/TCALL —
-    `x` is `argc n` on top of `n` cells on top of the recorded rest -/
+    `x` is `argc n` on top of `n` **typed** cells on top of the recorded rest -/
 def flowsTo (x : List ACell) : Option AState → Bool
   | some (.body y) => decide (x = y)
   | some (.call a) =>
     match x with
-    | .argc n :: r => decide (n ≤ r.length ∧ a = r.drop n)
+    | .argc n :: r => decide (n ≤ r.length ∧ a = r.drop n) && (r.take n).all ACell.isV
     | _ => false
   | _ => false
 
@@ -87,6 +106,18 @@ def bpSrcOk (entry : Bool) : Option VCell → Bool
   | some (.bpOffset off) => !entry && decide (off ≤ 0)
   | _ => true
 
+/-- the **source** operand of MOV: not a `Ptr` (`load_operand` would clone the *content* of that heap cell —
+    an inline `Pair` / `Closure`, not a value — into `acc` / a global slot / an environment slot).
+    `compile.rs` emits `Acc`, a `GlobalEnvSlot`, a `LexicalEnvSlot` or a `BasePointerOffset` there. -/
+def srcOk : Option VCell → Bool
+  | some (.ptr _) => false
+  | _ => true
+
+/-- the immediate of MOVIMM is a value (`Void`, a pointer to a constant / a lambda, a macro object) -/
+def immOk : Option VCell → Bool
+  | some v => isVal v
+  | none => false
+
 /-- the number of argument cells (counted down from `bp`) the `BasePointerOffset` cells of a code object
     address: `bp + off` with `off ≤ 0` is argument cell number `-off` from the top, so `-off + 1` are needed -/
 def argNeed (bc : List VCell) : Nat :=
@@ -108,16 +139,17 @@ def checkOp (bc : List VCell) (tm : TypeMap) (entry : Bool) (o : Nat) (st : ASta
     | some (.ptr t) => flowsTo x (stateAt tm t) && flowsTo x (stateAt tm (o + 2))
     | _ => false
   -- MOV / MOVIMM: the destination is `acc`, a global slot or an environment slot (`dstOk`)
-  | .mov, .body x => dstOk bc[o + 2]? && flowsTo x (stateAt tm (o + 3))
-  | .movImm, .body x => dstOk bc[o + 2]? && flowsTo x (stateAt tm (o + 3))
+  | .mov, .body x => srcOk bc[o + 1]? && dstOk bc[o + 2]? && flowsTo x (stateAt tm (o + 3))
+  | .movImm, .body x => immOk bc[o + 1]? && dstOk bc[o + 2]? && flowsTo x (stateAt tm (o + 3))
   | .push, .body x => flowsTo (.any :: x) (stateAt tm (o + 2))
   | .pushImm, .body x =>
     match (bc[o + 1]? : Option VCell) with
     | some v => flowsTo (cellTy v :: x) (stateAt tm (o + 2))
     | none => false
-  | .pushAcc, .body x => flowsTo (.any :: x) (stateAt tm (o + 1))
-  | .halt, .body x => entry && x.isEmpty
-  | .cons, .body (_ :: _ :: x) => flowsTo x (stateAt tm (o + 1))
+  | .pushAcc, .body x => flowsTo (.val :: x) (stateAt tm (o + 1))
+  -- HALT is the last cell of entry code (`PUSHIMM argc0; MOVIMM λ acc; CALL; HALT`): nothing runs after it
+  | .halt, .body x => entry && x.isEmpty && decide (o + 1 = bc.length)
+  | .cons, .body (c1 :: c2 :: x) => c1.isV && c2.isV && flowsTo x (stateAt tm (o + 1))
   | .vpushAcc, .body (_ :: x) => flowsTo x (stateAt tm (o + 1))
   | .closureAcc, .body x => flowsTo x (stateAt tm (o + 1))
   | .callAcc, .call a => flowsTo a (stateAt tm (o + 1))
@@ -194,21 +226,29 @@ def scanOne (bc : List VCell) (entry : Bool) (s : Scan) : Except Reject Scan :=
           if t ≤ o then .error ⟨o, "jnt: backward jump"⟩
           else .ok (s.emit (.body x) 2 (some x) [(t, x)] h)
         | _ => .error ⟨o, "jnt: operand is not an offset"⟩
-      | .mov | .movImm =>
-        if dstOk bc[o + 2]? then .ok (s.emit (.body x) 3 (some x) [] h)
+      | .mov =>
+        if !srcOk bc[o + 1]? then .error ⟨o, "mov: source is a heap pointer"⟩
+        else if dstOk bc[o + 2]? then .ok (s.emit (.body x) 3 (some x) [] h)
+        else .error ⟨o, "mov: destination is not acc, a global slot or an environment slot"⟩
+      | .movImm =>
+        if !immOk bc[o + 1]? then .error ⟨o, "movImm: immediate is not a value"⟩
+        else if dstOk bc[o + 2]? then .ok (s.emit (.body x) 3 (some x) [] h)
         else .error ⟨o, "mov: destination is not acc, a global slot or an environment slot"⟩
       | .push => .ok (s.emit (.body x) 2 (some (.any :: x)) [] (h + 1))
       | .pushImm =>
         match (bc[o + 1]? : Option VCell) with
         | some v => .ok (s.emit (.body x) 2 (some (cellTy v :: x)) [] (h + 1))
         | none => .error ⟨o, "pushImm: missing operand"⟩
-      | .pushAcc => .ok (s.emit (.body x) 1 (some (.any :: x)) [] (h + 1))
+      | .pushAcc => .ok (s.emit (.body x) 1 (some (.val :: x)) [] (h + 1))
       | .halt =>
-        if entry && x.isEmpty then .ok (s.emit (.body x) 1 none [] h)
-        else .error ⟨o, "halt: outside entry code or with a non-empty stack"⟩
+        if !(entry && x.isEmpty) then .error ⟨o, "halt: outside entry code or with a non-empty stack"⟩
+        else if o + 1 = bc.length then .ok (s.emit (.body x) 1 none [] h)
+        else .error ⟨o, "halt: not the last cell of the code"⟩
       | .cons =>
         match x with
-        | _ :: _ :: r => .ok (s.emit (.body x) 1 (some r) [] h)
+        | c1 :: c2 :: r =>
+          if c1.isV && c2.isV then .ok (s.emit (.body x) 1 (some r) [] h)
+          else .error ⟨o, "cons: an operand is not statically a value"⟩
         | _ => .error ⟨o, "cons: fewer than two temporaries"⟩
       | .vpushAcc =>
         match x with
@@ -218,13 +258,15 @@ def scanOne (bc : List VCell) (entry : Bool) (s : Scan) : Except Reject Scan :=
       | .callAcc =>
         match x with
         | .argc n :: r =>
-          if n ≤ r.length then .ok (s.emit (.call (r.drop n)) 1 (some (r.drop n)) [] h)
+          if !(r.take n).all ACell.isV then .error ⟨o, "call: an argument is not statically a value"⟩
+          else if n ≤ r.length then .ok (s.emit (.call (r.drop n)) 1 (some (r.drop n)) [] h)
           else .error ⟨o, "call: fewer temporaries than the argument count"⟩
         | _ => .error ⟨o, "call: top of stack is not a static argument count"⟩
       | .tcallAcc =>
         match x with
         | .argc n :: r =>
           if entry then .error ⟨o, "tcall: in entry code"⟩
+          else if !(r.take n).all ACell.isV then .error ⟨o, "tcall: an argument is not statically a value"⟩
           else if n ≤ r.length then .ok (s.emit (.call (r.drop n)) 1 (some (r.drop n)) [] h)
           else .error ⟨o, "tcall: fewer temporaries than the argument count"⟩
         | _ => .error ⟨o, "tcall: top of stack is not a static argument count"⟩
